@@ -7,8 +7,13 @@ package c13
 import (
 	"bytes"
 	"context"
+	"crypto"
+	"crypto/md5"
 	"crypto/rand"
+	"crypto/rsa"
 	"crypto/x509"
+	"crypto/x509/pkix"
+	"encoding/asn1"
 	"encoding/json"
 	"encoding/pem"
 	"fmt"
@@ -17,6 +22,7 @@ import (
 	"path/filepath"
 	"strings"
 	"sync"
+	"sync/atomic"
 	"time"
 
 	"github.com/notaryproject/notation-go/dir"
@@ -33,6 +39,7 @@ type CertFlags struct {
 	SelfSig      bool `json:"selfSig"`
 	SignOk       bool `json:"signOk"`
 	SubjEqIssuer bool `json:"subjEqIssuer"`
+	WeakSig      bool `json:"weakSig"`
 }
 
 type Entry struct {
@@ -50,7 +57,40 @@ type Input struct {
 	DirKind   string  `json:"dirKind"` // missing | dir | symlinkToDir | file
 	Entries   []Entry `json:"entries"`
 	Decoys    bool    `json:"decoys"`
+	Par       ParSpec `json:"par"`
 	Ctx       CtxSpec `json:"ctx"`
+}
+
+// ParStore is another store under the same root that is loaded at the same time.
+type ParStore struct {
+	StoreType string  `json:"storeType"`
+	Name      string  `json:"name"`
+	Entries   []Entry `json:"entries"`
+}
+
+// ParSpec: Workers goroutines keep loading the store under test and Stores (storePath: keep
+// computing their paths), Rounds times each, while the observation is taken.
+type ParSpec struct {
+	Stores  []ParStore
+	Workers int
+	Rounds  int
+}
+
+func (s ParSpec) MarshalJSON() ([]byte, error) {
+	st := s.Stores
+	if st == nil {
+		st = []ParStore{}
+	}
+	for k := range st {
+		if st[k].Entries == nil {
+			st[k].Entries = []Entry{}
+		}
+	}
+	return json.Marshal(struct {
+		Stores  []ParStore `json:"stores"`
+		Workers int        `json:"workers"`
+		Rounds  int        `json:"rounds"`
+	}{st, s.Workers, s.Rounds})
 }
 
 // CtxSpec says what the context handed to GetCertificates does during the call.
@@ -209,8 +249,99 @@ func mintRaw(t *x509.Certificate) *x509.Certificate {
 	return c
 }
 
+// mintLegacy builds a certificate signed with a SHA-1 or MD5 based algorithm.
+func mintLegacy(tag string, alg x509.SignatureAlgorithm, ca, selfKey, ownName bool, rsaOwn, rsaOther crypto.Signer) (*x509.Certificate, error) {
+	var key, other crypto.Signer
+	if alg == x509.ECDSAWithSHA1 {
+		key, other = common.NewECKey(), common.NewECKey()
+	} else {
+		key, other = rsaOwn, rsaOther
+	}
+	createAlg := alg
+	if alg == x509.MD5WithRSA {
+		createAlg = x509.SHA256WithRSA // crypto/x509 refuses to sign with MD5: re-signed below
+	}
+	ku := x509.KeyUsageDigitalSignature
+	if ca {
+		ku = x509.KeyUsageCertSign | x509.KeyUsageCRLSign
+	}
+	t := &x509.Certificate{SerialNumber: big.NewInt(time.Now().UnixNano()), Subject: common.Name("c13 legacy " + tag),
+		NotBefore: time.Now().Add(-time.Hour), NotAfter: time.Now().Add(24 * time.Hour), KeyUsage: ku,
+		BasicConstraintsValid: true, IsCA: ca, MaxPathLen: -1, SignatureAlgorithm: createAlg}
+	parent := *t
+	if !ownName {
+		parent.Subject = common.Name("c13 legacy issuer of " + tag)
+	}
+	signer := key
+	if !selfKey {
+		signer = other
+	}
+	der, err := x509.CreateCertificate(rand.Reader, t, &parent, key.Public(), signer)
+	if err != nil {
+		return nil, err
+	}
+	if alg == x509.MD5WithRSA {
+		if der, err = resignMD5(der, signer.(*rsa.PrivateKey)); err != nil {
+			return nil, err
+		}
+	}
+	return x509.ParseCertificate(der)
+}
+
+// the ASN.1 shape of a certificate (as in crypto/x509), to replace the signature by hand
+type tbsASN struct {
+	Raw                asn1.RawContent
+	Version            int `asn1:"optional,explicit,default:0,tag:0"`
+	SerialNumber       *big.Int
+	SignatureAlgorithm pkix.AlgorithmIdentifier
+	Issuer             asn1.RawValue
+	Validity           asn1.RawValue
+	Subject            asn1.RawValue
+	PublicKey          asn1.RawValue
+	UniqueId           asn1.BitString   `asn1:"optional,tag:1"`
+	SubjectUniqueId    asn1.BitString   `asn1:"optional,tag:2"`
+	Extensions         []pkix.Extension `asn1:"omitempty,optional,explicit,tag:3"`
+}
+type certASN struct {
+	TBS                tbsASN
+	SignatureAlgorithm pkix.AlgorithmIdentifier
+	SignatureValue     asn1.BitString
+}
+
+// resignMD5 replaces the signature of a certificate by an md5WithRSAEncryption one.
+func resignMD5(der []byte, key *rsa.PrivateKey) ([]byte, error) {
+	var c certASN
+	if rest, err := asn1.Unmarshal(der, &c); err != nil || len(rest) != 0 {
+		return nil, fmt.Errorf("resign: %v", err)
+	}
+	alg := pkix.AlgorithmIdentifier{Algorithm: asn1.ObjectIdentifier{1, 2, 840, 113549, 1, 1, 4}, Parameters: asn1.NullRawValue}
+	c.TBS.Raw = nil
+	c.TBS.SignatureAlgorithm = alg
+	tbs, err := asn1.Marshal(c.TBS)
+	if err != nil {
+		return nil, err
+	}
+	h := md5.Sum(tbs)
+	sig, err := rsa.SignPKCS1v15(rand.Reader, key, crypto.MD5, h[:])
+	if err != nil {
+		return nil, err
+	}
+	c.TBS.Raw = tbs
+	c.SignatureAlgorithm = alg
+	c.SignatureValue = asn1.BitString{Bytes: sig, BitLength: len(sig) * 8}
+	return asn1.Marshal(c)
+}
+
 // measured recomputes the four flags from the minted certificate with the standard library
 // only; used to make sure the pool is what it is declared to be.
+func weakAlgorithm(a x509.SignatureAlgorithm) bool {
+	switch a {
+	case x509.MD2WithRSA, x509.MD5WithRSA, x509.SHA1WithRSA, x509.DSAWithSHA1, x509.ECDSAWithSHA1:
+		return true
+	}
+	return false
+}
+
 func measured(c *x509.Certificate) (isCA, selfSig, signOk, subjEq, sigFromSelf bool) {
 	isCA = c.IsCA
 	selfSig = c.CheckSignature(c.SignatureAlgorithm, c.RawTBSCertificate, c.Signature) == nil
@@ -224,13 +355,14 @@ func measured(c *x509.Certificate) (isCA, selfSig, signOk, subjEq, sigFromSelf b
 func buildWorld(c *common.Ctx) (*world, error) {
 	w := &world{byRaw: map[string]int{}, byID: map[int]*x509.Certificate{}}
 	add := func(class string, cert *x509.Certificate, isCA, selfSig, signOk, subjEq bool) error {
+		weak := weakAlgorithm(cert.SignatureAlgorithm)
 		a, b, s, d, from := measured(cert)
-		if a != isCA || b != selfSig || s != signOk || d != subjEq || from != (signOk && selfSig) {
-			return fmt.Errorf("pool certificate %s: declared (%v,%v,%v,%v) but measured (%v,%v,%v,%v) CheckSignatureFrom(self)=%v",
-				class, isCA, selfSig, signOk, subjEq, a, b, s, d, from)
+		if a != isCA || b != selfSig || s != signOk || d != subjEq || from != (signOk && selfSig && !weak) {
+			return fmt.Errorf("pool certificate %s: declared (%v,%v,%v,%v) weak=%v but measured (%v,%v,%v,%v) CheckSignatureFrom(self)=%v",
+				class, isCA, selfSig, signOk, subjEq, weak, a, b, s, d, from)
 		}
 		id := len(w.pool)
-		w.pool = append(w.pool, poolCert{CertFlags{id, isCA, selfSig, signOk, subjEq}, cert, class})
+		w.pool = append(w.pool, poolCert{CertFlags{id, isCA, selfSig, signOk, subjEq, weak}, cert, class})
 		w.byRaw[string(cert.Raw)] = id
 		w.byID[id] = cert
 		return nil
@@ -280,10 +412,43 @@ func buildWorld(c *common.Ctx) (*world, error) {
 	if n := len(w.pool); !bytes.Equal(w.pool[n-1].cert.RawSubject, w.pool[n-2].cert.RawSubject) || bytes.Equal(w.pool[n-1].cert.Raw, w.pool[n-2].cert.Raw) {
 		return nil, fmt.Errorf("the rolled-over roots do not share their subject")
 	}
+	// certificates signed with algorithms crypto/x509 no longer verifies in chains: SHA-1 (created
+	// directly) and MD5 (re-signed by hand). selfKey: signed by the own key; all are issued to themselves
+	// (issuer = subject) unless `issued`.
+	rsaOwn, rsaOther := common.PoolKey(c.CacheDir, "RSA-2048"), common.PoolKey(c.CacheDir, "RSA-3072")
+	type legacy struct {
+		class            string
+		alg              x509.SignatureAlgorithm
+		ca, selfKey, own bool // own: issuer name = subject name
+	}
+	for _, l := range []legacy{
+		{"sha1-ecdsa root", x509.ECDSAWithSHA1, true, true, true},
+		{"sha1-rsa root", x509.SHA1WithRSA, true, true, true},
+		{"sha1-ecdsa self-issued CA signed by another key (roll-over)", x509.ECDSAWithSHA1, true, false, true},
+		{"sha1-rsa self-issued CA signed by another key (roll-over)", x509.SHA1WithRSA, true, false, true},
+		{"sha1-ecdsa self-signed non-CA", x509.ECDSAWithSHA1, false, true, true},
+		{"sha1-ecdsa intermediate CA", x509.ECDSAWithSHA1, true, false, false},
+		{"md5-rsa root", x509.MD5WithRSA, true, true, true},
+		{"md5-rsa self-issued CA signed by another key", x509.MD5WithRSA, true, false, true},
+		{"md5-rsa self-signed non-CA", x509.MD5WithRSA, false, true, true},
+	} {
+		cert, err := mintLegacy(l.class, l.alg, l.ca, l.selfKey, l.own, rsaOwn, rsaOther)
+		if err != nil {
+			return nil, fmt.Errorf("legacy certificate %s: %w", l.class, err)
+		}
+		// CheckSignature still verifies SHA-1 signatures, but refuses MD5 ones
+		selfSig := l.selfKey && l.alg != x509.MD5WithRSA
+		if err := add(l.class, cert, l.ca, selfSig, l.ca, l.own); err != nil {
+			return nil, err
+		}
+		if !weakAlgorithm(cert.SignatureAlgorithm) {
+			return nil, fmt.Errorf("legacy certificate %s came out with algorithm %v", l.class, cert.SignatureAlgorithm)
+		}
+	}
 	for k := 0; k < 3; k++ {
 		cert := mint(fmt.Sprintf("decoy %d", k), true, true, true, true)
 		id := 900 + k
-		w.decoys = append(w.decoys, poolCert{CertFlags{id, true, true, true, true}, cert, "decoy"})
+		w.decoys = append(w.decoys, poolCert{CertFlags{id, true, true, true, true, false}, cert, "decoy"})
 		w.byRaw[string(cert.Raw)] = id
 		w.byID[id] = cert
 	}
@@ -297,7 +462,7 @@ func acceptableFor(storeType string, f CertFlags) bool {
 		return false
 	}
 	if storeType == "tsa" {
-		return f.SelfSig && f.SignOk && f.SubjEqIssuer
+		return f.SelfSig && f.SignOk && f.SubjEqIssuer && !f.WeakSig
 	}
 	return true
 }
@@ -602,10 +767,146 @@ func (w *world) runLoad(c *common.Ctx, n int, in Input) (Obs, *Obs, error) {
 	if (o2.Ok != o.Ok || fmt.Sprint(o2.Certs) != fmt.Sprint(o.Certs)) && (o.Ok || in.Ctx.background()) {
 		o.Certs = append(o.Certs, unknownCert) // not repeatable: reported as a foreign certificate
 	}
+	// the slice handed out by the first load is the caller's: a later load (here: of a sibling store, which
+	// exists for plain type / name pairs) must not change it
+	if cleanType(in.StoreType) && cleanName(in.Name) {
+		for _, t := range validTypes {
+			if t != in.StoreType {
+				ts.GetCertificates(context.Background(), truststore.Type(t), in.Name)
+				break
+			}
+		}
+	}
+	if again := ids(certs); len(again) > len(o.Certs) || fmt.Sprint(again) != fmt.Sprint(o.Certs[:len(again)]) {
+		o.Certs = append(o.Certs, unknownCert) // the returned slice changed under the caller's feet
+	}
+	if len(in.Par.Stores) > 0 && in.Par.Workers > 0 {
+		// the other stores of the concurrent stage, then the stage itself
+		for _, ps := range in.Par.Stores {
+			sp := root + "/truststore/x509/" + ps.StoreType + "/" + ps.Name
+			if err := os.MkdirAll(sp, 0o755); err != nil {
+				return Obs{}, nil, err
+			}
+			if err := w.populate(root, sp, ps.Entries); err != nil {
+				return Obs{}, nil, err
+			}
+		}
+		if dev := w.stressLoads(ts, in, o, ids); dev != nil {
+			o = *dev
+		}
+	}
 	if in.Ctx.background() {
 		return o, nil, nil
 	}
 	return o, &o2, nil
+}
+
+// stressLoads: in.Par.Workers goroutines load the store under test and the other stores of
+// in.Par.Stores concurrently, in.Par.Rounds times each, through the same trust store value. Every
+// answer must be the sequential answer of its store. Returns nil when they all were; else the first
+// deviating observation of the store under test, or - when only another store deviated (or a worker
+// panicked) - the sequential observation with a foreign-certificate marker appended.
+func (w *world) stressLoads(ts truststore.X509TrustStore, in Input, ref Obs, ids func([]*x509.Certificate) []int) *Obs {
+	type target struct {
+		t, n string
+		ref  string
+	}
+	show := func(o Obs) string { return fmt.Sprint(o.Ok, o.Certs) }
+	load := func(t, n string) Obs {
+		certs, err := ts.GetCertificates(context.Background(), truststore.Type(t), n)
+		return Obs{Ok: err == nil, Certs: ids(certs)}
+	}
+	targets := []target{{in.StoreType, in.Name, show(ref)}}
+	for _, ps := range in.Par.Stores {
+		targets = append(targets, target{ps.StoreType, ps.Name, show(load(ps.StoreType, ps.Name))})
+	}
+	var stop atomic.Bool
+	var mu sync.Mutex
+	var devMain *Obs
+	devOther := false
+	var wg sync.WaitGroup
+	for j := 0; j < in.Par.Workers; j++ {
+		wg.Add(1)
+		go func(j int) {
+			defer wg.Done()
+			defer func() {
+				if r := recover(); r != nil {
+					mu.Lock()
+					devOther = true
+					mu.Unlock()
+					stop.Store(true)
+				}
+			}()
+			k := j % len(targets)
+			for r := 0; r < in.Par.Rounds && !stop.Load(); r++ {
+				o := load(targets[k].t, targets[k].n)
+				if show(o) != targets[k].ref {
+					mu.Lock()
+					if k == 0 && devMain == nil {
+						devMain = &o
+					} else if k != 0 {
+						devOther = true
+					}
+					mu.Unlock()
+					stop.Store(true)
+				}
+			}
+		}(j)
+	}
+	wg.Wait()
+	switch {
+	case devMain != nil:
+		return devMain
+	case devOther:
+		o := Obs{Ok: ref.Ok, Certs: append(append([]int{}, ref.Certs...), unknownCert)}
+		return &o
+	}
+	return nil
+}
+
+// stressPaths: the same for dir.X509TrustStoreDir alone. Returns "" when every concurrent answer was
+// the sequential one, else a deviating answer (prefixed when it belongs to another store's call).
+func stressPaths(in Input, ref string) string {
+	type target struct{ t, n, ref string }
+	targets := []target{{in.StoreType, in.Name, ref}}
+	for _, ps := range in.Par.Stores {
+		targets = append(targets, target{ps.StoreType, ps.Name, dir.X509TrustStoreDir(ps.StoreType, ps.Name)})
+	}
+	var stop atomic.Bool
+	var mu sync.Mutex
+	dev := ""
+	var wg sync.WaitGroup
+	for j := 0; j < in.Par.Workers; j++ {
+		wg.Add(1)
+		go func(j int) {
+			defer wg.Done()
+			defer func() {
+				if r := recover(); r != nil {
+					mu.Lock()
+					dev = "panic in a concurrent call"
+					mu.Unlock()
+					stop.Store(true)
+				}
+			}()
+			k := j % len(targets)
+			for r := 0; r < in.Par.Rounds && !stop.Load(); r++ {
+				if p := dir.X509TrustStoreDir(targets[k].t, targets[k].n); p != targets[k].ref {
+					mu.Lock()
+					if dev == "" || k == 0 {
+						if k == 0 {
+							dev = p
+						} else {
+							dev = "concurrent call for " + targets[k].t + "/" + targets[k].n + " returned " + p
+						}
+					}
+					mu.Unlock()
+					stop.Store(true)
+				}
+			}
+		}(j)
+	}
+	wg.Wait()
+	return dev
 }
 
 // ---- generators ----------------------------------------------------------------------------
@@ -615,7 +916,9 @@ var invalidTypes = []string{"", "CA", "Tsa", "tsa ", "x", "ca/", "../ca", "ca/..
 var validNames = []string{"store", "a.b", "my-store_1", "A", "0", "...", "..a", "a..", ".hidden", "-", "_", "a.b.c", "x.pem",
 	strings.Repeat("n", 200)}
 var invalidNames = []string{"", ".", "..", "a/b", "../x", "../../x", "a/../b", "/abs", "a b", " a", "a ", "a\n", "a\\b", "ä", "a*", "a:b",
-	"a+b", "a,b", "a@b", "~", "a/", "./a", "a/.", "a/..", "..\\x", "a\x00b", "store\t", "störe", "ａ", "a "}
+	"a+b", "a,b", "a@b", "~", "a/", "./a", "a/.", "a/..", "..\\x", "a\x00b", "store\t", "störe", "ａ", "a ",
+	// letters that case-fold into ASCII (long s, Kelvin sign, dotless i)
+	"tru\u017fted-roots", "\u212a8s-roots", "\u0131nternal"}
 var entryNames = []string{"a.pem", "b.crt", "c.cer", "root.pem", "ca.der", "Z.pem", "0.pem", "_x", "-y.pem", ".hidden", "cert", "CERT",
 	"a", "b", "aa", "a.pem.bak", "ü.pem", "中.crt", "a b.pem", "a-b", "a_b", "a.b", ".DS_Store", "A.pem", "~tmp", "z"}
 
@@ -982,6 +1285,49 @@ func (w *world) contexts(c *common.Ctx, n *int) error {
 	return nil
 }
 
+// concurrent: several stores of one root (same and different types, names of equal and of different
+// length) loaded at the same time through one trust store value, and their paths computed at the same
+// time. A sampled stress stage: every concurrent answer is compared with the sequential one.
+func (w *world) concurrent(c *common.Ctx, n *int) error {
+	cases, rounds, pathRounds := 6, 2500, 150000
+	if c.Thorough() {
+		cases, rounds, pathRounds = 30, 4000, 400000
+	}
+	nameSets := [][]string{{"alpha", "bravo", "delta"}, {"a", "store-with-a-long-name", "b.c"}, {"s1", "s2", "s3"}}
+	for k := 0; k < cases; k++ {
+		names := nameSets[k%len(nameSets)]
+		// type of the store under test and of the others: all the same, or mixed
+		tMain := validTypes[k%3]
+		var par ParSpec
+		par.Workers, par.Rounds = 8, rounds
+		good, _ := w.split("tsa") // roots: acceptable under every type, no signature to verify for ca
+		for j, nm := range names[1:] {
+			t := tMain
+			if k%2 == 1 {
+				t = validTypes[(k+j+1)%3]
+			}
+			par.Stores = append(par.Stores, ParStore{StoreType: t, Name: nm,
+				Entries: []Entry{file1("r.pem", "pem", good[(k+j+1)%len(good)])}})
+		}
+		in := Input{StoreType: tMain, Name: names[0], DirKind: "dir", Par: par,
+			Entries: []Entry{file1("r.pem", "pem", good[k%len(good)])}}
+		if k%3 == 2 {
+			// the store under test is not loadable: no concurrent call may make it load
+			in.Entries = append(in.Entries, Entry{Name: "junk", Kind: "file", ParseOk: false, Enc: "garbage", Certs: []CertFlags{}})
+		}
+		if err := w.emitLoad(c, n, in, "concurrent-loads"); err != nil {
+			return err
+		}
+		pp := par
+		pp.Rounds = pathRounds
+		for s := range pp.Stores {
+			pp.Stores[s].Entries = []Entry{}
+		}
+		emitPathPar(c, tMain, names[0], pp)
+	}
+	return nil
+}
+
 // ---- the file-name check alone ------------------------------------------------------------
 
 func emitName(c *common.Ctx, s string, tag string) {
@@ -1062,7 +1408,9 @@ func names(c *common.Ctx) {
 
 // ---- dir.X509TrustStoreDir alone ------------------------------------------------------------
 
-func emitPath(c *common.Ctx, t, n string) {
+func emitPath(c *common.Ctx, t, n string) { emitPathPar(c, t, n, ParSpec{}) }
+
+func emitPathPar(c *common.Ctx, t, n string, par ParSpec) {
 	if !validUTF8(t) || !validUTF8(n) {
 		return
 	}
@@ -1070,7 +1418,14 @@ func emitPath(c *common.Ctx, t, n string) {
 	if !validUTF8(p) {
 		return
 	}
-	c.Emit(Input{Op: "storePath", StoreType: t, Name: n, DirKind: "missing", Entries: []Entry{}}, Obs{Ok: true, Certs: []int{}, Path: p})
+	in := Input{Op: "storePath", StoreType: t, Name: n, DirKind: "missing", Entries: []Entry{}, Par: par}
+	if len(par.Stores) > 0 && par.Workers > 0 {
+		if dev := stressPaths(in, p); dev != "" {
+			p = dev
+		}
+		c.Count("stream=store-path-concurrent")
+	}
+	c.Emit(in, Obs{Ok: true, Certs: []int{}, Path: p})
 	c.Count("stream=store-path")
 	if cleanType(t) && cleanName(n) {
 		c.Count("store-path=known-type-plain-name")
@@ -1142,16 +1497,20 @@ func Run(c *common.Ctx) error {
 	if err := w.contexts(c, &n); err != nil {
 		return err
 	}
+	if err := w.concurrent(c, &n); err != nil {
+		return err
+	}
 	names(c)
 	paths(c)
 	c.Note("pool of %d certificates covering all 12 realisable combinations of (CA, cert-sign key usage, signed by own key, issuer=subject) twice, "+
-		"plus a root without key usage, a self-signed certificate without basic constraints, an RSA root and two different roots with the same subject (key roll-over); every pool certificate's flags are re-measured with crypto/x509 before use. "+
+		"plus a root without key usage, a self-signed certificate without basic constraints, an RSA root, two different roots with the same subject (key roll-over) and nine certificates signed with SHA-1 (ECDSA, RSA) or MD5 (re-signed by hand): roots, self-issued CAs signed by another key, self-signed non-CAs, an intermediate; every pool certificate's flags are re-measured with crypto/x509 before use. "+
 		"%d real directory trees: systematic types x names x store-directory kinds x 11 entry templates; every certificate alone and in pairs per store type; "+
 		"random loadable stores with 0-3 injected faults (type, name, directory kind, sub-directory, symlink, unparsable, empty file, unacceptable certificate, empty store, retyped); "+
 		"decoy certificates outside the store in half of the trees. "+
 		"Context dimension: stores of 2..5 (thorough 7) files, all good or with one bad entry (garbage, sub-directory, symlink, empty file, unacceptable certificate) at every position, each loaded under a context "+
 		"that ended before the call and under a polling context that turns cancelled / expired at its k-th Err/Done/Deadline call for every k <= 2*files+2; real WithTimeout / WithCancel timers of 0..3000 us on a 12-file store; "+
 		"a quarter of the random stores get a random context; after every load under an ending context the same store is loaded again under Background through the same trust store value and judged as a case of its own. For known type + plain name the store is created at root+\"/truststore/x509/\"+type+\"/\"+name by string concatenation. "+
+		"Concurrency (sampled stress): 8 goroutines load the store under test and two other stores of the same root (same / mixed types, names of equal / different length) thousands of times through one trust store value, and compute their paths 100000s of times; every concurrent answer must be the sequential one. "+
 		"Store path: dir.X509TrustStoreDir on all listed types x names plus random slash/dot words against the model of path.Join. Name check: all strings of length <=2 over %d boundary characters, length 3 over 12, every code point <= U+024F in three positions, random strings.",
 		len(w.pool), n, 36)
 	return nil
